@@ -684,7 +684,31 @@ class Gen:
                            lambda: self.loop_struct_probe(ctx), lambda: self.pass_trigger(ctx, "u32", 1)])()
         es = [first, second]
         r.shuffle(es)
-        rt = {"k": "tuple", "ts": [u32, u32]}
+        # a helper that takes a tuple / struct apart and re-assembles it with its (same-typed) members permuted or
+        # duplicated - the shape on which "destructure cancels construct" shortcuts must not fire
+        k = r.choice([2, 3, 3])
+        named = r.random() < 0.5
+        pt = {"k": "tuple", "ts": [u32] * k, "name": f"Qp{p}" if named else ""}
+        if named:
+            self.nested_structs = getattr(self, "nested_structs", []) + [pt]
+        ns = [f"y{i}" for i in range(k)]
+        while True:
+            pi = [r.randrange(k) for _ in range(k)]
+            if pi != list(range(k)):
+                break
+        hname = f"p{p}_perm"
+        take = ({"k": "letstruct", "name": pt["name"], "ns": ns, "e": {"k": "var", "n": "a0"}} if named
+                else {"k": "lettuple", "ns": ns, "e": {"k": "var", "n": "a0"}})
+        hbody = {"k": "block", "ss": [take],
+                 "tail": {"k": "tuple", "name": pt["name"], "es": [{"k": "var", "n": ns[j]} for j in pi]}}
+        self.fns[hname] = {"params": ["a0"], "ptys": [pt], "ret": pt, "body": hbody, "inline": r.choice(["", "", "never", "always"])}
+        srcs = [{"k": "var", "n": "m0"}, {"k": "var", "n": x}, {"k": "lit", "v": 7, "ty": "u32"}]
+        arg = {"k": "tuple", "name": pt["name"], "es": [srcs[i % 3] for i in range(k)]}
+        zs = [self.fresh(ctx) for _ in range(k)]
+        call = {"k": "call", "f": hname, "args": [arg]}
+        pre.append({"k": "letstruct", "name": pt["name"], "ns": zs, "e": call} if named else {"k": "lettuple", "ns": zs, "e": call})
+        es += [{"k": "var", "n": z} for z in zs]
+        rt = {"k": "tuple", "ts": [u32] * len(es)}
         body = {"k": "block", "ss": pre, "tail": {"k": "tuple", "es": es, "name": ""}}
         main = f"p{p}_main"
         self.fns[main] = {"params": params, "ptys": ptys, "ret": rt, "body": body, "inline": ""}
